@@ -2,7 +2,7 @@
    Statements only; proofs are in Proofs/ArenaProofs.v.  [cfg_current] is the loader as it is in
    /repo now (tied by checks/c17.py on every run), [cfg_pinned] the loader of the pinned commit. *)
 From Coq Require Import List NArith Lia.
-From YV Require Import Base.Bytes Model.Arena Proofs.ArenaProofs.
+From YV Require Import Base.Bytes Model.Arena Proofs.ArenaProofs Proofs.ArenaCanon.
 Import ListNotations.
 
 (* every strict prefix of every file the library writes is rejected with an error *)
@@ -26,8 +26,34 @@ Theorem header_corruption_rejected_partial : forall (s : bytes) (a : arena),
   firstn 4 s = magic /\ nth 4 s 0%N = file_version /\ nth 5 s 0%N = num_sections.
 Proof. exact accepted_files_have_valid_header. Qed.
 Print Assumptions header_corruption_rejected_partial.
-(* not proved (covered by the exhaustive single-field corruption sweep of checks/c17.py only):
-   rejection of every corrupted offset/size field of the buffer table. *)
+(* never half-loaded: whatever the loader accepts is, byte for byte, the file the saver writes for the
+   arena it hands out (header, section table with its offset and size columns, section bodies,
+   relocation list, terminator), followed at most by bytes that are never read.  A file whose header
+   or section table is not the one belonging to its contents is therefore never accepted. *)
+Theorem accepted_file_is_saved_image : forall (s : bytes) (a : arena),
+  all_bytes s = true -> rules_load cfg_current s = LOk a ->
+  exists tail, s = save cfg_current a ++ tail.
+Proof. exact accepted_file_is_saved_image_proof. Qed.
+Print Assumptions accepted_file_is_saved_image.
+
+(* so a damaged header or table cannot go unnoticed: two accepted files with the same loaded
+   content agree on every byte the saver writes *)
+Theorem accepted_same_arena_same_bytes : forall (s s' : bytes) (a : arena),
+  all_bytes s = true -> all_bytes s' = true ->
+  rules_load cfg_current s = LOk a -> rules_load cfg_current s' = LOk a ->
+  firstn (length (save cfg_current a)) s = firstn (length (save cfg_current a)) s'.
+Proof. exact accepted_same_arena_same_bytes_proof. Qed.
+Print Assumptions accepted_same_arena_same_bytes.
+
+(* non-vacuity: a written file consists of bytes and is accepted *)
+Example saved_image_is_bytes_and_accepted :
+  all_bytes (save cfg_current tiny_arena_reloc) = true /\ rules_load cfg_current (save cfg_current tiny_arena_reloc) = LOk tiny_arena_reloc.
+Proof. split; vm_compute; reflexivity. Qed.
+(* not a theorem (and false in general): that every single corrupted size field is rejected.  A
+   changed size of the LAST section moves the boundary between that section and the relocation list
+   and can, for suitable contents, give another self-consistent file; by the theorem above it is then
+   the written image of different rules, not a half-loaded copy of these.  checks/c17.py sweeps the
+   single-field corruptions of every generated image on the implementation. *)
 
 (* the finding on the pinned tree: the loader without the list terminator accepts a cut file *)
 Theorem truncated_refuted_pinned :
